@@ -196,7 +196,17 @@ func isExportedEntry(f *ssa.Function) bool {
 	if !isUserFunc(f) {
 		return false
 	}
-	return token.IsExported(f.Name())
+	return token.IsExported(f.Name()) && !inInternalPkg(f)
+}
+
+// inInternalPkg: the function lives in a package under internal/: exported there means "usable by the module's other
+// packages", not "API" — its callers are all in the module and are analysed.
+func inInternalPkg(f *ssa.Function) bool {
+	if f == nil || f.Pkg == nil {
+		return false
+	}
+	p := f.Pkg.Pkg.Path()
+	return strings.Contains(p, "/internal/") || strings.HasSuffix(p, "/internal")
 }
 
 func c10R3(c *Ctx, info *effectsInfo) {
@@ -575,7 +585,7 @@ func (lc *lockCtx) held(ins ssa.Instruction, seen map[*ssa.Function]bool) map[st
 		return out
 	}
 	seen[f] = true
-	if f.Parent() == nil && token.IsExported(f.Name()) {
+	if f.Parent() == nil && token.IsExported(f.Name()) && !inInternalPkg(f) {
 		return out
 	}
 	sites := lc.callers[f]
